@@ -785,7 +785,12 @@ func (i *IRCServer) generateCaptchaURL(s *Session, purpose string) string {
 		base64.StdEncoding.EncodeToString(mac.Sum(nil)),
 	}, ".")
 
-	u, _ := url.Parse(i.Config.CaptchaURL)
+	u, err := url.Parse(i.Config.CaptchaURL)
+	if err != nil {
+		// The configured URL cannot be parsed; do the best we can instead of
+		// crashing (u is nil).
+		return i.Config.CaptchaURL + "#" + parts
+	}
 	if u.Path == "" {
 		u.Path = "/"
 	}
